@@ -144,21 +144,10 @@ impl<I: Index> SimpleTermIndex<I> {
 
 impl<I: Index> Clone for SimpleTermIndex<I> {
     fn clone(&self) -> Self {
-        // NB: this can not be derived:
-        // the terms in i2t borrow their data from the keys of t2i,
-        // so the clone's i2t must borrow from the clone's own keys, not from self's.
-        let t2i = self.t2i.clone();
-        let mut keys: Vec<(&SimpleTerm<'static>, I)> = t2i.iter().map(|(k, v)| (k, *v)).collect();
-        keys.sort_unstable_by_key(|(_, i)| *i);
-        let i2t = keys
-            .into_iter()
-            .map(|(k, _)| {
-                let t2 = k.as_simple();
-                // the following is safe, for the same reason as in ensure_index below
-                unsafe { std::mem::transmute::<SimpleTerm<'_>, SimpleTerm<'static>>(t2) }
-            })
-            .collect();
-        Self { t2i, i2t }
+        Self {
+            t2i: self.t2i.clone(),
+            i2t: self.i2t.clone(),
+        }
     }
 }
 
@@ -179,12 +168,11 @@ impl<I: Index> TermIndex for SimpleTermIndex<I> {
                 if i >= I::MAX {
                     return Err(TermIndexFullError());
                 }
-                let t2 = e.key().as_simple();
-                // the following is safe,
-                // because t2 borrows data from the key in self.t2i,
-                // which will live as long as self, and will not be moved (Box<str>).
-                let t2: SimpleTerm<'static> = unsafe { std::mem::transmute(t2) };
-                self.i2t.push(t2);
+                // NB: i2t holds its own copy of the term.
+                // It used to borrow the text of the key in self.t2i (transmuted to 'static),
+                // but get_term hands out &SimpleTerm<'static>, whose clones would then
+                // outlive the index while still pointing into it.
+                self.i2t.push(e.key().clone());
                 e.insert(i);
                 Ok(i)
             }
